@@ -10,6 +10,7 @@ import TomlVerif.Driver.C20
 import TomlVerif.Driver.C03
 import TomlVerif.Driver.C16
 import TomlVerif.Driver.C19
+import TomlVerif.Driver.C06
 
 open TomlVerif
 
@@ -28,6 +29,8 @@ def dispatch (mode : String) (line : String) : String :=
   | "c03" => Driver.c03 line
   | "c16" => Driver.c16 line
   | "c19" => Driver.c19 line
+  | "c06" => Driver.c06 line
+  | "c06s" => Driver.c06s line
   | "c14" => Driver.c14 line
   | "cstsem" => Driver.cstSem line
   | _ => "bad-mode"
